@@ -605,6 +605,14 @@ impl RoutingThread {
 
         let mut previous_block_hash = chain.start;
         let configs = self.config_lock.read().await;
+        if !configs.is_spv_mode() {
+            // only nodes in spv mode ever request a ghost chain (request_blockchain_from_peer)
+            warn!(
+                "ghost chain received from peer : {:?} while not in spv mode. ignoring",
+                peer_index
+            );
+            return;
+        }
         let mut blockchain = self.blockchain_lock.write().await;
         let mut lowest_id_to_reorg = 0;
         let mut lowest_hash_to_reorg = [0; 32];
